@@ -21,6 +21,16 @@ for f in b['findings']:
 json.dump(a,open('/verif/known_findings.json','w'),indent=1)
 print('known findings:',len(ids))
 PY
+# extractors of harness/translate.py must survive the merge
+python3 - <<'PY'
+import re,subprocess
+cur=set(re.findall(r'emit\("(\w+)"', open('/verif/harness/translate.py').read()))
+for rev in ('HEAD^1','HEAD^2'):
+    try:
+        old=set(re.findall(r'emit\("(\w+)"', subprocess.run(['git','-C','/verif','show',rev+':harness/translate.py'],capture_output=True,text=True).stdout))
+    except Exception: continue
+    if old-cur: print('TRANSLATE.PY LOST EXTRACTORS:', rev, old-cur)
+PY
 /venv/bin/python harness/translate.py > /dev/null
 /venv/bin/python harness/manifest_gen.py | tail -1
 (cd lean && lake build 2>&1 | grep -v "^✔" | tail -5)
